@@ -94,8 +94,11 @@ CLAIMS["C03"] = dict(
         "rank, structure). The conditions are a verified decidable checker evaluated per explored grammar that the real analysis "
         "finds free of left recursion, with the REAL flags and a rank computed from the REAL first graph: a missing edge fails it.",
    design="6/C03", technique="Coq proofs (simulation of the stateful visitor by its pure reading; least pre-fixed point; termination of the reference semantics by rank) + table re-extraction + verified checkers on the real analysis output + correspondence over permutations",
-   note="Partial: order independence of the per-item flags/first graph is validated by the correspondence and the "
-        "permutation sweeps; termination is a theorem about the reference semantics (the generated parser is tied to it case "
+   note="Item flags and first-graph rows are theorems too (C03_item_flags_are_exact: after the analysis a NamedItem is flagged exactly "
+        "when the pure reading with the final rule flags says so -- Proofs/VisitAll.v shows the table-driven visitor reaches every "
+        "NamedItem inside a node, Proofs/NullableItems.v that the last pass settles them; C03_first_graph_order_independent: every "
+        "rule's set of initial invocations is the same under every permutation of the rules). Partial: the step from the first graph "
+        "to the left-recursive flags is the SCC computation (C16: verified checker per explored graph); termination is a theorem about the reference semantics (the generated parser is tied to it case "
         "by case, C01), instantiated per explored grammar. Completeness of left-recursion marking is "
         "relative to the SCC computation (C16).")
 CLAIMS["C10"] = dict(
@@ -107,7 +110,8 @@ CLAIMS["C10"] = dict(
         "exactly the collected members; for EVERY grammar and analysis result the module the generator model emits has one "
         "method per rule, named after it, in grammar order, followed by helper methods _tmp_k/_loop0_k/_loop1_k/_gather_k with "
         "pairwise distinct numbers k (Proofs/GenNames.v: the work list is only extended at its end by rules named after fresh "
-        "counter values), and its keyword tables are strictly sorted and hold exactly the quoted words of the grammar "
+        "counter values), hence -- decimal rendering being injective, Proofs/DecimalInj.v -- no method name is defined twice when "
+        "the rule names are distinct and do not begin with an underscore (C10_method_names_pairwise_distinct), and its keyword tables are strictly sorted and hold exactly the quoted words of the grammar "
         "(C10_generated_keyword_tables_sorted_and_exact, from the C11 generator theorem); determinism w.r.t. set "
         "iteration/rule order rests on Props/C03.v and C16.v. On the "
         "implementation: compile() of every output, one method per rule in grammar order, keyword tuples equal to an "
